@@ -204,6 +204,30 @@ def check(ctx):
             ok, detail = False, 'the search radius does not depend on the inner fraction'
         ctx.ob('R3', fcas, e['node'], ok, detail)
 
+    # ---- R5 (continued): every site group is searched - the loop over the labels has no early exit
+    from .C04 import functions_under
+    from .common import parent_map, walk_no_nested
+    for f_ in functions_under(it, CAS, ctx.p):
+        if f_.qualname != CAS and not in_cas({'ctx': [CAS, f_.qualname]}):
+            continue
+        pm_ = parent_map(f_.node)
+        for loop in walk_no_nested(f_.node):
+            if not isinstance(loop, ast.For):
+                continue
+            base_ = loop.iter.func.value if (isinstance(loop.iter, ast.Call) and isinstance(loop.iter.func, ast.Attribute)
+                                             and loop.iter.func.attr in ('items', 'keys', 'values')) else loop.iter
+            src = it.cur(base_)
+            over_radius = src is not None and any(d_.endswith('.site_radius') for d_ in (src.origin or ()))
+            if not over_radius:
+                continue
+            for b in walk_no_nested(loop):
+                if isinstance(b, (ast.Break, ast.Return)):
+                    p_ = pm_.get(id(b))
+                    while p_ is not None and not isinstance(p_, (ast.For, ast.While)):
+                        p_ = pm_.get(id(p_))
+                    if p_ is loop:
+                        ctx.ob('R5', f_, b, False, 'the loop over the site groups (labels) is left early: the groups after this one are never searched, '
+                                                   'their atoms stay at "no site"')
     # ---- R4 automatic radius
     check_radius(ctx)
 
